@@ -178,6 +178,8 @@ PROMOTABLE = [
     ('memoryview', lambda bits: memoryview(routes.to_bytes(bits)), lambda bits: len(bits) % 8 == 0),
     ('mv_strided', lambda bits: memoryview(routes.interleave(routes.to_bytes(bits)))[::2], lambda bits: len(bits) % 8 == 0),
     ('mv_reversed', lambda bits: memoryview(routes.to_bytes(bits)[::-1])[::-1], lambda bits: len(bits) % 8 == 0),
+    ('mv_cast_H', lambda bits: memoryview(routes.to_bytes(bits)).cast('H'), lambda bits: len(bits) % 16 == 0 and len(bits) > 0),
+    ('mv_2d', lambda bits: memoryview(routes.to_bytes(bits)).cast('B', (2, len(bits) // 16)), lambda bits: len(bits) % 16 == 0 and len(bits) > 0),
     ('bytesio', lambda bits: __import__('io').BytesIO(routes.to_bytes(bits)), lambda bits: len(bits) % 8 == 0),
     ('bytesio_cursor', lambda bits: (lambda f: (f.read(), f)[1])(__import__('io').BytesIO(routes.to_bytes(bits))), lambda bits: len(bits) % 8 == 0),
     ('list', lambda bits: [c == '1' for c in bits], True),
@@ -191,7 +193,7 @@ class Plain:
 
 
 def run_other(bs, acc, ctx):
-    conts = list(families.all_bits(3)) + ['10110010', '0000000011111111', '101100101']
+    conts = list(families.all_bits(3)) + ['10110010', '0000000011111111', '101100101', '10110010000000011111111100110101']
     # whole-byte forms of the short contents (zero padded): equal bytes but different length must compare unequal
     conts += sorted({c + '0' * ((-len(c)) % 8) for c in conts if len(c) % 8})
     nonprom = [('int', 3), ('zero', 0), ('negint', -1), ('negint5', -5), ('bigint', 2 ** 70), ('negbig', -2 ** 70), ('bool', True), ('false', False),
@@ -245,6 +247,10 @@ def _src(name, bits):
         return f"memoryview({routes.interleave(routes.to_bytes(bits))!r})[::2]"
     if name == 'mv_reversed':
         return f"memoryview({routes.to_bytes(bits)[::-1]!r})[::-1]"
+    if name == 'mv_cast_H':
+        return f"memoryview({routes.to_bytes(bits)!r}).cast('H')"
+    if name == 'mv_2d':
+        return f"memoryview({routes.to_bytes(bits)!r}).cast('B', (2, {len(bits) // 16}))"
     if name == 'bytesio':
         return f"__import__('io').BytesIO({routes.to_bytes(bits)!r})"
     if name == 'bytesio_cursor':
